@@ -215,6 +215,51 @@ CHECKS.update({
     ),
 })
 
+# Round 5 (DESIGN.md section 14): sentences appended to the level texts above; REPLACE replaces a text as a whole.
+APPEND = {
+    "C03": (" Fan-out satellite (Fanout.tla, FanoutMon): ONE goroutine executes TLC-generated programs of fan-out notifications (Client.AddRoots/RemoveRoots, "
+            "Server.ResourceUpdated to legacy sessions and 2026-07-28 listen streams), per-session notifications (NotifyProgress, Log) and calls over 2-3 real "
+            "sessions while the environment holds messages in the send path and makes notification handlers slow; the per-session ordering statement is checked "
+            "exhaustively by TLC (2 sessions x <= 4 ops, 3 sessions x <= 3 ops), asynchronous-fan-out what-ifs must fail, and all 1 138 (thorough ~11 600) generated "
+            "scenarios are pinned under synctest and judged by C03.FanoutObservedInOrder / FanoutNotificationCompletesFirst. Corner scripts keep a backlog of "
+            "notifications queued at shutdown (reader end / Close / read error)."),
+    "C05": (" ConnNotify.tla additionally carries an inductive invariant (transport closed only when idle and it stays idle; the epilogue never misses the idle "
+            "moment) that Apalache discharges for 4 senders: a safety result unbounded in the length of behaviours."),
+    "C07": (" Interleavings: NegotiateConc.tla cuts a connect into the steps at which it touches the Server (Server.Connect computes the transport's version list / "
+            "first request dispatched / handler answers / client finishes and uses the session) and interleaves them in every order for 2 connections in progress on "
+            "ONE Server behind pipes (with/without ProtocolVersionSupporter), SSE, stateful and stateless endpoints at once (4 200 scenarios; thorough also 3 "
+            "connections, 3 585). TLC checks the five clauses per connection plus NonInterference (outcome = the one-connection table) and must find a what-if with a "
+            "server-wide list violating NoModernOverLegacyTransport / Exact. Every scenario (quick: 680) is pinned with gates on one real Server and every connection "
+            "is judged by the same monitor clauses on its own case. Interleavings inside a step are not enumerated."),
+    "C15": (" Interleavings: OAuthFlowConc.tla models 2 (thorough: 3) Authorize calls in flight on one handler, cut into the blocks between the points where the SDK "
+            "enters the environment; the environment delivers to each fetcher its own callback, another attempt's callback, a stale one or a wrong iss; TLC checks the "
+            "per-attempt C15 clauses, six what-if configurations (one per-attempt datum kept in a handler cell) must each fail, and every complete 2-attempt schedule "
+            "(1 694 quick / 5 792 thorough, plus ~46k sampled 3-attempt schedules) is pinned with gates on the real handler and judged per attempt by OAuthFlowConcMon."),
+}
+REPLACE = {
+    "C14": ("BearerDefs.tla holds the value classes, the code-shaped Expected and the declarative property Holds (iff admission, status by cause, challenge content, "
+            "same token info); Bearer.tla holds the case space of 91 784 cases: the core product of 81 600 (header shapes x verifier outcomes incl. error-with-info x "
+            "scope lists incl. duplicates x expiry around the skew boundary x options) plus four slices. The time slice crosses 14 expiration classes (boundary +-1 ns, "
+            "hours, +-3Q, just beyond the int64-ns Duration range, year 1 / year 9999 / extreme time.Time values, zero time) with 10 skew classes (0, 1 ns, seconds, "
+            "days-to-years, 3Q, MaxInt64, negative ones, MinInt64) on an exact three-scale integer arithmetic, where 'expired' means Expiration + skew before now in the "
+            "integers. The header slice covers two Authorization lines and Unicode-space separators, for which only the 'only if' half is demanded. The scope slice covers "
+            "look-alike and unsplit granted scopes and a duplicated required list. The challenge slice covers URL forms with query, comma and percent-escapes, read back "
+            "with an RFC 9110 auth-param parser. TLC checks Holds(c, Expected(c)) on every case and that the parts are disjoint, and exports them; every case is run "
+            "through the real middleware under a frozen clock on seeded representatives (1 for the core and 3 for the slices in quick, 4 and 24 in thorough), each "
+            "checked against its class in exact arithmetic, presented twice to one middleware instance with a cached TokenInfo, and the TLA+ monitor evaluates Holds on "
+            "both outcomes. Exhaustive over the abstract space in both tiers."),
+}
+NOTE_REPLACE = {
+    "C14": ("Trusted: TLC; concretisation of the abstract classes and the challenge parser in the harness; synctest frozen clock. Negative ClockSkew is judged by the "
+            "documented arithmetic (rejected only if Expiration + ClockSkew is before now)."),
+}
+for _k, _v in REPLACE.items():
+    CHECKS[_k]["text"] = _v
+for _k, _v in NOTE_REPLACE.items():
+    CHECKS[_k]["note"] = _v
+for _k, _v in APPEND.items():
+    CHECKS[_k]["text"] += _v
+
 NOT_YET = "check not built yet in this round (planned with the same technique; see DESIGN.md section 6)"
 
 def main():
